@@ -100,6 +100,17 @@ Theorem c04_pool_no_assert_failure :
 Proof. exact pool_gen_no_assert_failure. Qed.
 Print Assumptions c04_pool_no_assert_failure.
 
+(* "nor blocks forever": whenever Executor::run is blocked in park() without a pending unpark, some worker
+   can perform its next step (it is not parked, or its token / the unpark that will give it is pending, or it
+   is about to unpark the main thread): no reachable state has every thread blocked.  This is
+   deadlock-freedom of the protocol, not termination (which also needs fairness and terminating tasks). *)
+Theorem c04_pool_run_never_blocked_with_all_workers_blocked :
+  forall n ls, 1 <= n ->
+    let s := p_run barrier_gen (p_init n) ls in
+    pmain s = MPark -> pmtok s = false -> exists j c s', p_step barrier_gen s (LW j c) = Some s'.
+Proof. exact pool_gen_no_global_deadlock. Qed.
+Print Assumptions c04_pool_run_never_blocked_with_all_workers_blocked.
+
 (* non-vacuity: two workers, a task that wakes two tasks, one of which is stolen; the run ends *)
 Example c04_pool_nonvacuous :
   let s := p_run barrier_gen (p_init 2) sched_fixed in
